@@ -82,6 +82,8 @@ class SUT:
         from . import world as W
 
         self.world = world
+        self.world0 = world
+        self.log: list = []  # successful mutating / restart ops, in order
         self.device = W.build_device(world["device"])
         self.register = W.build_register(world["register"])
         self.seq = Sequence(self.register, self.device)
@@ -135,6 +137,11 @@ RESTART = {
 }
 
 CACHE = {"cache_clear", "cache_shrink"}
+
+# "fork": rebuild an independent copy of the sequence from the log of successful
+# calls, run a prelude of valid calls and then one call that is expected to be
+# refused, all on the copy. Read-only for the sequence under test.
+FORK = {"fork"}
 
 
 def _detuning_map(sut: SUT, weights: dict):
@@ -328,6 +335,8 @@ def _do(sut: SUT, op: dict) -> Any:
         sut.world = dict(sut.world, register=op["register"])
         sut.restarts += 1
         return None
+    if k == "fork":
+        return _fork(sut, op)
     # ---------------------------------------------------------------- cache
     if k == "cache_clear":
         from . import env
@@ -335,6 +344,37 @@ def _do(sut: SUT, op: dict) -> Any:
         env.clear_caches()
         return None
     raise ValueError(f"unknown op {k}")
+
+
+def replica(sut: SUT) -> "SUT | None":
+    """A fresh SUT brought to the same state by re-issuing the logged calls."""
+    fs = SUT(sut.world0)
+    for o in sut.log:
+        try:
+            _do(fs, o)
+        except Exception:  # noqa: BLE001
+            return None
+        fs.log.append(o)
+    return fs
+
+
+def _fork(sut: SUT, op: dict) -> dict:
+    from . import observe
+
+    with warnings.catch_warnings():
+        warnings.simplefilter("ignore")
+        fs = replica(sut)
+        if fs is None:
+            return {"status": "replica-failed"}
+        for o in op["prelude"]:
+            try:
+                _do(fs, o)
+            except Exception as e:  # noqa: BLE001
+                return {"status": "prelude-refused", "exc": type(e).__name__}
+        pre = observe.snapshot(fs.seq)
+    out = issue(fs, op["bad"])
+    post = observe.snapshot(fs.seq)
+    return {"status": "done", "pre": pre, "post": post, "out": out}
 
 
 def _get_var(sut: SUT, op: dict):
@@ -362,6 +402,8 @@ def issue(sut: SUT, op: dict) -> Outcome:
                 exc_msg=str(e)[:300],
                 warnings=tuple(str(x.message)[:80] for x in w),
             )
+    if op["op"] in MUTATING or op["op"] in RESTART:
+        sut.log.append(op)
     return Outcome("ok", value=val, warnings=tuple(str(x.message)[:80] for x in w))
 
 
